@@ -13,4 +13,22 @@ CHECKS = {
   note='Structural necessary conditions only: byte-for-byte equality with an independent serializer (parity bytes, payload '
        'contents) is a runtime-value statement and is NOT decided. Trusted: clang-14 ABI for the configured target, the IR loader.'),
 }
+CHECKS['C18'] = dict(
+  technique='interprocedural lockset (must/may held locks) over LLVM IR with slot-resolved call graph',
+  text='Schedule-independent decision for every access site of the build: all loads/stores of the instance registry '
+       '(active_instances, next_backend_desc, ec_backend.link/idesc) reachable from the 16 public entry points hold '
+       'active_instances_rwlock (stores in write mode); all accesses to the GF-table refcount and all table-pointer stores hold the '
+       'module mutex; no path returns holding an acquired lock.',
+  note='Decides data-race freedom of the registry and the shared tables only. NOT decided: results equal sequential results, '
+       'atomicity of multi-step operations, races inside external plug-ins. Assumes loader ctor/dtor are single-threaded and '
+       'table readers run under an instance that holds a table reference.')
+CHECKS['C13'] = dict(
+  technique='null-check dominance, dominating-guard bound implication and divisor-shape rules over LLVM IR',
+  text='For all 16 prototypes of erasurecode.h and every pointer parameter: each dereference (also in callees and shared cleanup '
+       'blocks) is dominated by a non-null edge and the null edge returns a negative constant; every descriptor look-up is tested '
+       'and refuses with an error; destination index / fragment length / fragment count are range-checked before the first consumer; '
+       'the guards dominating instance allocation imply k>=1, m>=0, k+m<=32, id<EC_BACKENDS_MAX (RS: m>=1, ISA-L: whole-byte w>=8); '
+       'every front-end divisor is built from k and the byte word size.',
+  note='Does NOT decide absence of all arithmetic/memory faults on accepted instances (needs value ranges of every size expression); '
+       'allocation-failure paths are outside the quantifier. The XOR shape whitelist is decided under C05.')
 NOT_APPLICABLE = {}
